@@ -20,7 +20,27 @@ policies: after every call, sparse, end only — a reported matrix must not depe
 often, it was asked for before.  A building block may carry a herald (grouping is then forced and
 `c` gains an ancilla mode that every later call has to be mapped over).  Streams: (1) a directed
 corpus (read - mutate - read around every mutating method, also on a circuit that already has an
-ancilla mode; tiled building blocks of depth 1 and 2), (2) random programs.
+ancilla mode; tiled building blocks of depth 1 and 2; programs run under changed GLOBAL SETTINGS, see
+below), (2) random programs.
+
+Global settings as a configuration dimension.  `lightworks.settings` (`unitary_precision`,
+`sampler_probability_threshold`) is process-global.  Its only legitimate effect on anything this
+property talks about is the acceptance test of a user-supplied matrix in `Unitary(...)`
+(`check_unitary`: |U^dagger U - 1| <= unitary_precision); the model accepts every block, so blocks are
+always exactly unitary (float rounding ~1e-16, below the strictest setting used, 1e-12) and the
+accept / reject decisions agree under every setting.  The pseudo-op ["setting", name, value] changes
+a setting at that point of the program (before anything is built, in the middle, between the last
+call and the read, between two reads); the model never sees it, i.e. the clauses are the same under
+every setting, and in addition a matrix read before and after a change of a setting must not move.
+Settings are restored in a finally-block after every program (also when the program raises), so the
+other streams always run under the defaults.  Such programs carry components whose amplitudes are
+tiny but non-zero (reflectivity / loss ~1e-6 ... 1e-21 and 1 - 1e-6, 1 - 1e-9, phases next to 0, pi/2,
+pi, 2 pi, unitary blocks with such entries; exact rationals for the model), and U is compared with
+the ordered product to 1e-9 absolute AND, per real / imaginary part whose exact value is non-zero, to
+1e-6 relative (down to an absolute floor of 1e-13 plus the conditioning of the component matrices in
+their float arguments next to reflectivity / loss 1, see float_floor: legitimate float cancellation
+stays below it); an entry whose exact value is non-zero must not be reported as exactly 0.  Any chopping / rounding /
+thresholding of the reported matrix, keyed on a setting or not, shows up there.
 """
 
 from __future__ import annotations
@@ -28,11 +48,15 @@ from __future__ import annotations
 import json
 import random
 
+import contextlib
+from fractions import Fraction
+
 import numpy as np
 
 import circgen as cg
 import circgen_ext as cx
-from core import CIRCLE, PYTH, Ctx, ddmin, mat_close, parse_mat
+import lightworks as lw
+from core import CIRCLE, GQ, PYTH, Ctx, MachineryFault, ddmin, frac_str, mat_close, parse_mat
 
 TRUSTED = [
     "Lean 4.33 kernel; Mathlib v4.33 as compiled on this image",
@@ -47,37 +71,205 @@ ASSUMPTIONS = [
     "programs: <= 8 modes, <= 40 calls on the circuit plus <= 3 building blocks of <= 4 modes in the correspondence "
     "check (theorems are unbounded)",
     "a Parameter that is never re-set stands for its value (re-setting is C10's subject)",
+    "global settings: unitary_precision in {1e-12 .. 1e-2}, sampler_probability_threshold in {1e-12 .. 0.3}; unitary "
+    "blocks are exactly unitary (the model accepts every block; acceptance of nearly-unitary matrices under a "
+    "relaxed unitary_precision is not part of this property)",
+    "relative comparison of small entries: 1e-6 relative down to an absolute floor of 1e-13 + 5 x (sum over beam "
+    "splitters of 1.2e-16/s and over loss elements of 3e-17/a); reflectivity / loss next to 1 only down to 1 - 1e-9 "
+    "(the float 1 - x below that loses more than 1e-6 relative), at most 2 such components per random program",
 ]
 
 READ = ["read", "*"]
+PSEUDO = ("read", "setting")  # ops the model never sees
+
+# --------------------------------------------------------------------------- global settings
+
+SETTINGS = ("unitary_precision", "sampler_probability_threshold")
+DEFAULTS = {k: getattr(lw.settings, k) for k in SETTINGS}  # at import: nothing has touched them yet
+PRECISIONS = [1e-12, 1e-8, 1e-6, 1e-4, 1e-2]
+THRESHOLDS = [1e-12, 1e-6, 1e-3, 0.3]
+
+
+@contextlib.contextmanager
+def settings_scope(reset: bool = False):
+    """whatever happens inside, the process-global settings are put back on exit"""
+    saved = {k: getattr(lw.settings, k) for k in SETTINGS}
+    try:
+        if reset:
+            for k, v in DEFAULTS.items():
+                setattr(lw.settings, k, v)
+        yield
+    finally:
+        for k, v in saved.items():
+            setattr(lw.settings, k, v)
+
+
+def _setting(rng, key: str | None = None, default: bool = False) -> list:
+    key = key or ("unitary_precision" if rng.random() < 0.8 else "sampler_probability_threshold")
+    if default:
+        return ["setting", key, DEFAULTS[key]]
+    return ["setting", key, rng.choice(PRECISIONS if key == "unitary_precision" else THRESHOLDS)]
+
+
+# --------------------------------------------------------------------------- tiny amplitudes
+
+
+def _tiny_pt(m: int) -> tuple:
+    """(t, b) with t = 2m/(m^2+1) ~ 2/m, b = (m^2-1)/(m^2+1), t^2 + b^2 = 1"""
+    return Fraction(2 * m, m * m + 1), Fraction(m * m - 1, m * m + 1)
+
+
+# t^2 ~ 1e-6, 1e-9, 1e-12, 1e-16, 1e-21  (t ~ 1e-3, 3.2e-5, 1e-6, 1e-8, 3.2e-11)
+TINY = [_tiny_pt(m) for m in (2000, 63246, 2_000_000, 200_000_000, 63_245_553_203)]
+# reflectivity / loss b^2 = 1 - t^2 next to 1: the code forms 1 - x (or arccos(sqrt(x))) in floats, which keeps 1e-6
+# relative accuracy of the small amplitude only down to 1 - 1e-9
+NEAR1 = TINY[:2]
+
+
+def _tiny_phase(rng) -> GQ:
+    t, b = rng.choice(TINY)
+    sr, si = rng.choice([1, -1]), rng.choice([1, -1])
+    # next to 0 (or 2 pi, from below), next to pi, next to +-pi/2
+    return GQ(sr * b, si * t) if rng.random() < 0.7 else GQ(sr * t, si * b)
+
+
+def tinyfy(rng, op: list, near1: bool = True) -> tuple:
+    """(op', tag): a valid-valued bs / ps / loss op with one of its values replaced by a tiny-amplitude one
+    (`near1`: reflectivity / loss next to 1 allowed)"""
+    kind = op[0]
+    if kind not in ("bs", "ps", "loss") or not isinstance(op[-1], dict) or op[-1]:
+        return op, None
+    op = list(op)
+    if kind == "bs":
+        if not (op[8] and op[9]):
+            return op, None
+        w = rng.choice(["refl~0", "refl~0", "refl~1", "loss~0", "loss~1"] if near1 else ["refl~0", "loss~0"])
+        if w == "refl~0":
+            t, b = rng.choice(TINY)
+            op[4], op[5] = frac_str(t), frac_str(b)
+        elif w == "refl~1":
+            t, b = rng.choice(NEAR1)
+            op[4], op[5] = frac_str(b), frac_str(t)
+        elif w == "loss~0":
+            t, b = rng.choice(TINY)
+            op[7] = [frac_str(b), frac_str(t)]  # (amplitude factor, sqrt(loss))
+        else:
+            t, b = rng.choice(NEAR1)
+            op[7] = [frac_str(t), frac_str(b)]
+        return op, "bs:" + w
+    if kind == "ps":
+        if not op[5]:
+            return op, None
+        w = rng.choice(["phase", "phase", "phase", "loss~0", "loss~1"] if near1 else ["phase", "loss~0"])
+        if w == "phase":
+            op[3] = _tiny_phase(rng).s()
+        elif w == "loss~0":
+            t, b = rng.choice(TINY)
+            op[4] = [frac_str(b), frac_str(t)]
+        else:
+            t, b = rng.choice(NEAR1)
+            op[4] = [frac_str(t), frac_str(b)]
+        return op, "ps:" + w
+    if not op[5]:
+        return op, None
+    if not near1 or rng.random() < 0.6:
+        t, b = rng.choice(TINY)
+        op[3], op[4] = frac_str(b), frac_str(t)
+        return op, "loss~0"
+    t, b = rng.choice(NEAR1)
+    op[3], op[4] = frac_str(t), frac_str(b)
+    return op, "loss~1"
+
+
+def tiny_unitary(rng, n: int, depth: int | None = None) -> list:
+    """exactly unitary n x n block (Givens rotations and phases) with some rotations / phases from the tiny sets:
+    entries ~1e-3 ... 1e-11 next to entries ~1"""
+    u = [[GQ(1) if i == j else GQ(0) for j in range(n)] for i in range(n)]
+    depth = rng.randint(1, 2 * n) if depth is None else depth
+    used = False
+    for d in range(depth):
+        tiny = rng.random() < 0.5 or (d == depth - 1 and not used)
+        used = used or tiny
+        if n >= 2 and rng.random() < 0.75:
+            i, j = rng.sample(range(n), 2)
+            c, s = rng.choice(TINY) if tiny else rng.choice(PYTH)
+            if tiny and rng.random() < 0.5:
+                c, s = s, c
+            ph = rng.choice(CIRCLE)
+            for k in range(n):
+                a, b = u[i][k], u[j][k]
+                u[i][k] = GQ(c) * a + (-(GQ(s) * ph.conj())) * b
+                u[j][k] = GQ(s) * ph * a + GQ(c) * b
+        else:
+            i = rng.randrange(n)
+            ph = _tiny_phase(rng) if tiny else rng.choice(CIRCLE)
+            for k in range(n):
+                u[i][k] = ph * u[i][k]
+    return u
+
+
+class Tiny:
+    """per-program source of tiny-amplitude variants: `prim(rng, op)` turns a generated primitive into its tiny
+    variant with probability p (at most `cap` times per program: every one multiplies the size of the exact model's
+    rationals), `unitary(rng, n)` gives a block"""
+
+    def __init__(self, ctx: Ctx | None, p: float, cap: int = 6, cap_near1: int = 2) -> None:
+        # next to reflectivity / loss 1 the small amplitude has a relative float error of up to ~1e-7 per component
+        # (see float_floor); a few of them in a row stay well below the relative tolerance
+        self.ctx, self.p, self.cap, self.cap_near1 = ctx, p, cap, cap_near1
+
+    def _hit(self, rng) -> bool:
+        return self.p > 0 and self.cap > 0 and rng.random() < self.p
+
+    def prim(self, rng, op: list) -> list:
+        if self._hit(rng):
+            op, tag = tinyfy(rng, op, self.cap_near1 > 0)
+            if tag:
+                self.cap -= 1
+                self.cap_near1 -= tag.endswith("~1")
+                if self.ctx:
+                    self.ctx.count("tiny:" + tag)
+        return op
+
+    def unitary(self, rng, n: int) -> list:
+        if self._hit(rng):
+            self.cap -= 1
+            if self.ctx:
+                self.ctx.count("tiny:unitary-block")
+            return tiny_unitary(rng, n)
+        return cg.exact_unitary(rng, n)
+
+
+NO_TINY = Tiny(None, 0.0)
 
 
 # --------------------------------------------------------------------------- generation
 
 
-def _unitary_add(rng, prog: list, tgt: str, n: int, uid: str, p_over: float = 0.15, p_group: float = 0.3) -> None:
+def _unitary_add(rng, prog: list, tgt: str, n: int, uid: str, p_over: float = 0.15, p_group: float = 0.3,
+                 tiny: Tiny = NO_TINY) -> None:
     """unitary block through add(Unitary(u), mode)"""
     sz = rng.randint(1, n)
     mode = rng.randint(0, n - sz)
     if rng.random() < p_over:
         mode = n - sz + rng.randint(1, 2)  # oversize -> rejected
-    prog.append(["unitary", uid, cg.mat_json(cg.exact_unitary(rng, sz))])
+    prog.append(["unitary", uid, cg.mat_json(tiny.unitary(rng, sz))])
     prog.append(["add", tgt, uid, mode, rng.random() < p_group])
 
 
-def _block(rng, prog: list, bid: str, size: int, ptab: dict, uid: str) -> None:
+def _block(rng, prog: list, bid: str, size: int, ptab: dict, uid: str, tiny: Tiny = NO_TINY) -> None:
     """building block: a circuit with a few primitives and (mostly) a grouped unitary block inside"""
     prog.append(["new", bid, size])
     for _ in range(rng.randint(0, 2)):
-        prog.append(cx.with_param(rng, cg.rand_prim_op(rng, bid, size), ptab, 0.15))
+        prog.append(cx.with_param(rng, tiny.prim(rng, cg.rand_prim_op(rng, bid, size)), ptab, 0.15))
     if rng.random() < 0.85:
         sz = rng.randint(1, size)
         room = size - sz
         m = rng.randint(1, room) if room > 0 and rng.random() < 0.7 else 0
-        prog.append(["unitary", uid, cg.mat_json(cg.exact_unitary(rng, sz))])
+        prog.append(["unitary", uid, cg.mat_json(tiny.unitary(rng, sz))])
         prog.append(["add", bid, uid, m, rng.random() < 0.8])
     for _ in range(rng.randint(0, 2)):
-        prog.append(cx.with_param(rng, cg.rand_prim_op(rng, bid, size), ptab, 0.15))
+        prog.append(cx.with_param(rng, tiny.prim(rng, cg.rand_prim_op(rng, bid, size)), ptab, 0.15))
 
 
 def _place(rng, prog: list, n: int, bid: str, size: int, p_over: float = 0.12, p_group: float = 0.3) -> None:
@@ -103,9 +295,33 @@ def with_reads(rng, ops: list, policy: str | None = None) -> list:
     return out
 
 
+def with_settings(ctx: Ctx, rng, prog: list) -> list:
+    """1-3 changes of a global setting at random points of a program that already has its reads: before anything is
+    built, in the middle, between the last call and a read, between two reads (an extra read follows the change),
+    back to the default before a read"""
+    out = list(prog)
+    for _ in range(rng.choice([1, 1, 2, 3])):
+        r = rng.random()
+        pos = 0 if r < 0.25 else len(out) if r < 0.45 else rng.randint(0, len(out))
+        ins = [_setting(rng, default=rng.random() < 0.15)]
+        if rng.random() < 0.5:
+            ins.append(READ)
+        out[pos:pos] = ins
+    return out
+
+
 def gen_program(ctx: Ctx, rng) -> list:
     n = rng.randint(1, ctx.n(6, 8))
     k = rng.randint(0, ctx.n(14, 40))
+    # configuration dimension: global settings changed during the program and / or tiny-amplitude components
+    r = rng.random()
+    use_tiny, use_settings = r >= 0.60 and not 0.72 <= r < 0.80, r >= 0.72
+    tiny = Tiny(ctx, rng.choice([0.15, 0.3, 0.5])) if use_tiny else NO_TINY
+    if use_tiny:
+        k = min(k, 24)
+        ctx.count("program:with-tiny-amplitudes" + ("+settings" if use_settings else "@default-settings"))
+    elif use_settings:
+        ctx.count("program:with-settings")
     prog = [["new", "c", n]]
     ptab: dict = {}
     nblk = 0
@@ -114,7 +330,7 @@ def gen_program(ctx: Ctx, rng) -> list:
         for j in range(rng.randint(1, 2)):
             size = rng.randint(1, min(4, n - 1 if rng.random() < 0.85 else n))
             nblk += 1
-            _block(rng, prog, f"b{j}", size, ptab, f"u{nblk}")
+            _block(rng, prog, f"b{j}", size, ptab, f"u{nblk}", tiny)
             blocks[f"b{j}"] = size
             if size >= 2 and rng.random() < 0.2:
                 # a heralded block: grouping is forced and every placement gives `c` an ancilla mode, which
@@ -129,7 +345,7 @@ def gen_program(ctx: Ctx, rng) -> list:
             prog.append(["new", "w0", size])
             prog.append(["add", "w0", b0, rng.randint(0, size - blocks[b0]), rng.random() < 0.85])
             if rng.random() < 0.5:
-                prog.append(cg.rand_prim_op(rng, "w0", size))
+                prog.append(tiny.prim(rng, cg.rand_prim_op(rng, "w0", size)))
             blocks["w0"] = size
         ctx.count("program:with-building-blocks")
     p_herald = 0.04 if rng.random() < 0.3 else 0.0
@@ -140,15 +356,18 @@ def gen_program(ctx: Ctx, rng) -> list:
             _place(rng, prog, n, bid, blocks[bid])
         elif blocks and r < 0.27:
             bid = rng.choice(sorted(blocks))
-            prog.append(cg.rand_prim_op(rng, bid, blocks[bid], p_invalid=0.1))  # edit between placements
+            prog.append(tiny.prim(rng, cg.rand_prim_op(rng, bid, blocks[bid], p_invalid=0.1)))  # edit between placements
         elif r < (0.35 if blocks else 0.12):
             nblk += 1
-            _unitary_add(rng, prog, "c", n, f"u{nblk}")
+            _unitary_add(rng, prog, "c", n, f"u{nblk}", tiny=tiny)
         elif r < (0.35 if blocks else 0.12) + p_herald:
             prog.append(["herald", "c", rng.choice([0, 1, 2]), rng.randrange(n), rng.randrange(n)])
         else:
-            prog.append(cx.with_param(rng, cg.rand_prim_op(rng, "c", n, p_invalid=0.15), ptab, 0.08))
-    return [prog[0], *with_reads(rng, prog[1:])]
+            prog.append(cx.with_param(rng, tiny.prim(rng, cg.rand_prim_op(rng, "c", n, p_invalid=0.15)), ptab, 0.08))
+    body = with_reads(rng, prog[1:])
+    if use_settings:
+        body = with_settings(ctx, rng, body)
+    return [prog[0], *body]
 
 
 # ----- directed corpus
@@ -252,10 +471,157 @@ def directed_tiles(rng, depth2: bool) -> list:
     return [["new", "c", n], *with_reads(rng, ops)]
 
 
+# ----- directed corpus: global settings x tiny amplitudes
+
+SETTING_SHAPES = ["before-build", "after-build", "between-reads", "restored-before-read", "mid-build",
+                  "sampler-threshold", "both-settings", "default-only"]
+TINY_KINDS = ["bs-refl~0", "bs-refl~0", "bs-refl~1", "ps-phase", "loss~0", "loss~1", "bs+loss~0", "ps+loss~1",
+              "unitary-block", "param-bs", "block"]
+
+
+def _pick_tiny(rng, prec: float, pool: list = TINY) -> tuple:
+    """a tiny point whose amplitude lies below the given precision setting (if there is one), mostly"""
+    below = [pt for pt in pool if float(pt[0]) < prec]
+    return rng.choice(below) if below and rng.random() < 0.7 else rng.choice(pool)
+
+
+def _tiny_body(rng, cid: str, n: int, prec: float, tag: str) -> list:
+    """a few ordinary components around 2-4 components with tiny amplitudes of every kind (primitives, a
+    Parameter-valued one, a unitary block, a building block holding one), chosen relative to `prec`"""
+    ops: list = [_prim_of(rng, cid, n, "bs")]
+    for j, kd in enumerate(rng.sample(TINY_KINDS, rng.randint(2, 4))):
+        m1, m2 = rng.sample(range(n), 2)
+        conv = rng.choice(["Rx", "H"])
+        t, b = _pick_tiny(rng, prec, NEAR1 if kd.endswith("~1") else TINY)
+        if kd == "bs-refl~0":
+            ops.append(cg.op_bs(cid, m1, m2, t, b, conv))
+        elif kd == "bs-refl~1":
+            ops.append(cg.op_bs(cid, m1, m2, b, t, conv))
+        elif kd == "ps-phase":
+            sr, si = rng.choice([1, -1]), rng.choice([1, -1])
+            ops.append(cg.op_ps(cid, m1, GQ(sr * b, si * t) if rng.random() < 0.7 else GQ(sr * t, si * b)))
+        elif kd == "loss~0":
+            ops.append(cg.op_loss(cid, m1, b, t))
+        elif kd == "loss~1":
+            ops.append(cg.op_loss(cid, m1, t, b))
+        elif kd == "bs+loss~0":
+            ops.append(cg.op_bs(cid, m1, m2, *rng.choice(PYTH[1:-1]), conv, loss=(b, t)))
+        elif kd == "ps+loss~1":
+            ops.append(cg.op_ps(cid, m1, rng.choice(CIRCLE), loss=(t, b)))
+        elif kd == "unitary-block":
+            sz = rng.randint(2, n)
+            ops.append(["unitary", f"u{tag}{j}", cg.mat_json(tiny_unitary(rng, sz))])
+            ops.append(["add", cid, f"u{tag}{j}", rng.randint(0, n - sz), rng.random() < 0.5])
+        elif kd == "param-bs":
+            op = cg.op_bs(cid, m1, m2, t, b, conv)
+            op[-1] = {"param": f"q{tag}{j}"}
+            ops.append(op)
+        else:  # a building block that holds the tiny component, placed grouped or not
+            bid = f"b{tag}{j}"
+            ops += [["new", bid, 2], cg.op_bs(bid, 0, 1, t, b, conv), cg.op_ps(bid, 1, rng.choice(CIRCLE)),
+                    ["add", cid, bid, rng.randint(0, n - 2), rng.random() < 0.5]]
+        if rng.random() < 0.5:
+            ops.append(_prim_of(rng, cid, n, rng.choice(["bs", "ps", "swaps"])))
+    ops.append(_prim_of(rng, cid, n, "bs"))
+    return ops
+
+
+def directed_settings(rng, shape: str, value: float) -> list:
+    """one circuit with tiny-amplitude components, and a global setting changed at a given point of its life"""
+    n = rng.randint(3, 4)
+    key = "sampler_probability_threshold" if shape == "sampler-threshold" else "unitary_precision"
+    prec = value if key == "unitary_precision" else rng.choice(PRECISIONS[1:])
+    st, back = ["setting", key, value], ["setting", key, DEFAULTS[key]]
+    new = ["new", "c", n]
+    if shape == "before-build":
+        return [new, st, *_tiny_body(rng, "c", n, prec, "a"), READ]
+    if shape == "after-build":
+        return [new, *_tiny_body(rng, "c", n, prec, "a"), st, READ]
+    if shape == "between-reads":
+        return [new, *_tiny_body(rng, "c", n, prec, "a"), READ, st, READ, back, READ]
+    if shape == "restored-before-read":
+        return [new, st, *_tiny_body(rng, "c", n, prec, "a"), back, READ]
+    if shape == "mid-build":
+        return [new, *_tiny_body(rng, "c", n, prec, "a"), READ, st, *_tiny_body(rng, "c", n, prec, "b"), READ,
+                _setting(rng, key), READ]
+    if shape == "sampler-threshold":
+        return [new, *_tiny_body(rng, "c", n, prec, "a"), READ, st, READ, *_tiny_body(rng, "c", n, prec, "b"), READ]
+    if shape == "both-settings":
+        return [new, st, ["setting", "sampler_probability_threshold", rng.choice(THRESHOLDS)],
+                *with_reads(rng, _tiny_body(rng, "c", n, prec, "a"))]
+    # default-only: no setting is touched; amplitudes below the default precision are there all the same
+    return [new, *with_reads(rng, _tiny_body(rng, "c", n, DEFAULTS["unitary_precision"], "a"))]
+
+
 # --------------------------------------------------------------------------- one program
 
 
-def _check_obj(probs: list, cid: str, where: str, obs: dict, m: dict) -> None:
+REL = 1e-6     # relative tolerance on a real / imaginary part whose exact value is non-zero ...
+FLOOR = 1e-13  # ... down to this absolute error (float noise of a sum of a few dozen terms of size <= 1 is ~1e-15)
+
+
+def float_floor(prog: list) -> float:
+    """absolute accuracy that the float evaluation of this program has at best: FLOOR plus the conditioning of the
+    documented component matrices in their float arguments.  A beam splitter's transmission amplitude
+    s = sin(arccos(sqrt(r))) carries an absolute error ~1.2e-16 / s (3.8e-12 at r = 1 - 1e-9), a loss element's
+    amplitude factor a = sqrt(1 - loss) one of ~3e-17 / a.  These errors are relative to the amplitude and pass the
+    relative comparison as long as the amplitude is a factor of the entry; when two such amplitudes reach an entry on
+    different paths and nearly cancel there, the difference keeps the absolute error, which is legitimate."""
+    n_add = sum(1 for op in prog if op[0] == "add")
+    tot = 0.0
+    for op in prog:
+        e, lossab = 0.0, None
+        if op[0] == "bs":
+            sv = abs(float(Fraction(op[5])))
+            e = 1.2e-16 / sv if sv else 0.0
+            lossab = op[7]
+        elif op[0] == "ps":
+            lossab = op[4]
+        elif op[0] == "loss":
+            lossab = [op[3], op[4]]
+        if lossab:
+            av = abs(float(Fraction(lossab[0])))
+            e += (2 if op[0] == "bs" else 1) * 3e-17 / av if av else 0.0
+        tot += e * (1 if op[1] == "c" else 1 + n_add)  # a component of a building block is there once per placement
+    return FLOOR + 5 * tot
+
+
+def parse_exact(rows: list) -> tuple:
+    """the model's matrix as floats plus, per entry, whether its exact real / imaginary part is non-zero"""
+    n = len(rows)
+    val = np.zeros((n, n), dtype=complex)
+    nzr = np.zeros((n, n), dtype=bool)
+    nzi = np.zeros((n, n), dtype=bool)
+    for i, r in enumerate(rows):
+        for j, x in enumerate(r):
+            g = GQ.parse(x)
+            val[i, j] = complex(g)
+            nzr[i, j] = g.re != 0
+            nzi[i, j] = g.im != 0
+    return val, nzr, nzi
+
+
+def small_entry_problem(u: np.ndarray, exact: tuple, stats: dict | None = None) -> str | None:
+    """relative comparison of the parts whose exact value is non-zero; None when they all agree"""
+    val, nzr, nzi = exact
+    if u.shape != val.shape:
+        return None  # reported by the absolute comparison
+    floor = (stats or {}).get("floor", FLOOR)
+    for part, nz, a, b in (("real", nzr, u.real, val.real), ("imaginary", nzi, u.imag, val.imag)):
+        bad = nz & (np.abs(a - b) > np.maximum(REL * np.abs(b), floor))
+        if bad.any():
+            i, j = (int(x) for x in np.argwhere(bad)[0])
+            return f"{part} part of U[{i},{j}] is {a[i, j]!r}, the ordered product gives {b[i, j]!r}"
+        if stats is not None:
+            stats["small"] = stats.get("small", 0) + int(np.count_nonzero(nz & (np.abs(b) < 1e-3)))
+    zero = (nzr | nzi) & (np.abs(val) > 1e-150) & (u == 0)
+    if zero.any():
+        i, j = (int(x) for x in np.argwhere(zero)[0])
+        return f"U[{i},{j}] is reported as exactly 0, the ordered product gives {val[i, j]!r}"
+    return None
+
+
+def _check_obj(probs: list, cid: str, where: str, obs: dict, m: dict, stats: dict | None = None) -> None:
     """clauses of the property on one object at one read point (`m`: the model's state there)"""
     tag = f" [object {cid}, {where}]"
     if "U_full" not in obs:
@@ -270,28 +636,56 @@ def _check_obj(probs: list, cid: str, where: str, obs: dict, m: dict) -> None:
         return
     if not mat_close(uf.conj().T @ uf, np.eye(uf.shape[0])) or not mat_close(uf @ uf.conj().T, np.eye(uf.shape[0])):
         probs.append("oracle: U_full is not unitary" + tag)
-    if not mat_close(obs["U"], uf[: obs["n"], : obs["n"]], 1e-12):
+    blk = uf[: obs["n"], : obs["n"]]
+    if not mat_close(obs["U"], blk, 1e-12) or np.any(np.abs(obs["U"] - blk) > np.maximum(REL * np.abs(blk), 1e-15)):
         probs.append("oracle: U is not the leading block of U_full" + tag)
-    if not mat_close(obs["U"], parse_mat(m["U_spec"])):
+    exact = parse_exact(m["U_spec"])
+    if not mat_close(obs["U"], exact[0]):
         probs.append("oracle: U differs from the ordered product of the documented component matrices" + tag)
+    else:
+        small = small_entry_problem(obs["U"], exact, stats)
+        if small:
+            probs.append("oracle: U differs from the ordered product of the documented component matrices in a small "
+                         f"entry (relative tolerance {REL:g}): {small}" + tag)
     if not mat_close(uf, parse_mat(m["U_full"])):
         probs.append("corr: U_full differs from the model's compile" + tag)
 
 
 def run_case(ctx: Ctx, prog: list) -> list[str]:
-    """returns a list of problem descriptions (empty = all clauses hold on this program)"""
+    """returns a list of problem descriptions (empty = all clauses hold on this program).  The global settings are
+    the defaults on entry and on exit, whatever the program sets and however it ends."""
+    now = {k: getattr(lw.settings, k) for k in SETTINGS}
+    if now != DEFAULTS:
+        raise MachineryFault(f"global lightworks settings are not the defaults at the start of a program: {now}")
+    with settings_scope():
+        return _run_case(ctx, prog)
+
+
+def _run_case(ctx: Ctx, prog: list) -> list[str]:
     probs: list[str] = []
     pool: dict = {}
     params: dict = {}
     impl_res: list = []
-    reads: list = []  # (index of the last real op done, {id: observables})
+    reads: list = []  # (index of the last real op done, position in prog, {id: observables})
     fresh = None  # observables of every object, valid while no call has been made since they were read
-    real = [op for op in prog if op[0] != "read"]
-    for op in prog:
+    real = [op for op in prog if op[0] not in PSEUDO]
+    for pos, op in enumerate(prog):
         if op[0] == "read":
             if pool:
                 fresh = {cid: cg.observe(c) for cid, c in pool.items()}
-                reads.append((len(impl_res) - 1, fresh))
+                reads.append((len(impl_res) - 1, pos, fresh))
+            continue
+        if op[0] == "setting":
+            setattr(lw.settings, op[1], op[2])
+            if fresh is not None:
+                # nothing was built or changed since the last read: what is reported must not move with a setting
+                after = {cid: cg.observe(c) for cid, c in pool.items()}
+                for cid, before in fresh.items():
+                    d = cx.diff(before, after[cid], 1e-14)
+                    if d is not None:
+                        probs.append(f"oracle: {d} of an unchanged circuit changed when settings.{op[1]} was set to "
+                                     f"{op[2]!r} [object {cid}, after call #{len(impl_res) - 1}]")
+                fresh = after
             continue
         r = cx.apply_op(pool, op, params)
         impl_res.append(r)
@@ -301,7 +695,9 @@ def run_case(ctx: Ctx, prog: list) -> list[str]:
                     probs.append(f"oracle: rejected call {op[0]} ({r}) changed the circuit [object {cid}, call #{len(impl_res) - 1}]")
         elif r == "ok":
             fresh = None
-    reads.append((len(real) - 1, {cid: cg.observe(c) for cid, c in pool.items()}))
+    reads.append((len(real) - 1, len(prog), {cid: cg.observe(c) for cid, c in pool.items()}))
+    if probs:
+        return probs
     ids = [op[1] for op in real if op[0] in ("new", "unitary", "copy", "plus")]
     mid = reads[:-1]
     # the model's state at the read points.  Stepping the model is free, reporting the (exact) matrices
@@ -316,45 +712,53 @@ def run_case(ctx: Ctx, prog: list) -> list[str]:
         probs.append(f"corr: call #{idx} {real[idx][:4]} impl={impl_res[idx]} model={mres['results'][idx]}")
         return probs
     if every:
-        compare = [(k, snapshot, mres["snaps"][k]) for k, snapshot in reads]
+        compare = [(k, snapshot, mres["snaps"][k]) for k, _pos, snapshot in reads]
     else:
         chosen = set(range(len(mid)))
         if len(mid) > 2:
             ctx.count("reads:long-program-compared-at-subset")
             chosen = set(random.Random(f"{len(real)}-{len(prog)}").sample(range(len(mid)), 2))
-            for j, (k, snapshot) in enumerate(mid):
-                if j not in chosen and _differs_from_fresh(real, k, snapshot):
+            for j, (k, pos, snapshot) in enumerate(mid):
+                if j not in chosen and _differs_from_fresh(prog, pos, snapshot):
                     ctx.count("reads:differs-from-fresh-rebuild")
                     chosen.add(j)
                     break
         compare = []
         for j in sorted(chosen):
-            k, snapshot = mid[j]
+            k, _pos, snapshot = mid[j]
             if k == len(real) - 1:
                 compare.append((k, snapshot, mres["final"]))
             else:
                 compare.append((k, snapshot, ctx.model.call({"op": "circ", "prog": real[: k + 1], "observe": ids})["final"]))
-        compare.append((reads[-1][0], reads[-1][1], mres["final"]))
+        compare.append((reads[-1][0], reads[-1][2], mres["final"]))
+    stats: dict = {"floor": float_floor(real)}
     for k, snapshot, mstate in compare:
         for cid, obs in snapshot.items():
             m = mstate.get(cid)
             if m is not None:
-                _check_obj(probs, cid, f"after call #{k}", obs, m)
+                _check_obj(probs, cid, f"after call #{k}", obs, m, stats)
         if probs:
             break
+    if stats.get("small"):
+        ctx.count("oracle:small-nonzero-parts-compared-relatively", stats["small"])
     return probs
 
 
 LONG = 16  # calls; up to here the model reports its state after every call
 
 
-def _differs_from_fresh(real: list, k: int, snapshot: dict) -> bool:
-    """rebuild the first k+1 calls in a fresh pool that is never read before, and compare"""
+def _differs_from_fresh(prog: list, pos: int, snapshot: dict) -> bool:
+    """rebuild everything before position `pos` of the program (same calls, same changes of settings) in a fresh
+    pool that is never read before, and compare"""
     pool: dict = {}
     params: dict = {}
-    for op in real[: k + 1]:
-        cx.apply_op(pool, op, params)
-    return any(cid in pool and cx.diff(obs, cg.observe(pool[cid]), 1e-9) is not None for cid, obs in snapshot.items())
+    with settings_scope(reset=True):
+        for op in prog[:pos]:
+            if op[0] == "setting":
+                setattr(lw.settings, op[1], op[2])
+            elif op[0] != "read":
+                cx.apply_op(pool, op, params)
+        return any(cid in pool and cx.diff(obs, cg.observe(pool[cid]), 1e-9) is not None for cid, obs in snapshot.items())
 
 
 def classify(prog) -> tuple:
@@ -366,10 +770,22 @@ def _stats(ctx: Ctx, prog: list) -> None:
     ops = [op[0] for op in prog]
     for k in set(ops):
         ctx.count("op:" + k, ops.count(k))
+    built = False
+    for i, op in enumerate(prog):
+        if op[0] == "setting":
+            ctx.count(f"settings:{op[1]}={op[2]:g}" + (" (default)" if op[2] == DEFAULTS[op[1]] else ""))
+            ctx.count("settings:changed-" + ("after-components-were-added" if built else "before-anything-is-built"))
+            if i > 0 and prog[i - 1][0] == "read" and i + 1 < len(prog) and prog[i + 1][0] == "read":
+                ctx.count("settings:changed-between-two-reads")
+        elif op[0] in ("bs", "ps", "loss", "swaps", "add"):
+            built = True
+    if "setting" in ops:
+        # the driver has no notion of the settings: the model's answer is the one for every setting
+        ctx.count("program:settings-changed:model-is-setting-independent")
     if any(cx.param_key(op) is not None for op in prog):
         ctx.count("program:with-Parameter")
     nread = ops.count("read")
-    nreal = len(ops) - nread
+    nreal = len(ops) - nread - ops.count("setting")
     ctx.count("reads:" + ("end-only" if nread == 0 else "after-every-call" if nread >= nreal - 1 else "sparse"))
     placed: dict = {}
     for op in prog:
@@ -391,7 +807,7 @@ def _one(ctx: Ctx, prog: list, sample: bool) -> None:
 
         def still(sub):
             p = [prog[0], *sub]
-            return cx.well_formed(p) and bool(run_case(ctx, p))
+            return cx.well_formed([o for o in p if o[0] != "setting"]) and bool(run_case(ctx, p))
 
         small = [prog[0], *ddmin(prog[1:], still)]
         sprobs = run_case(ctx, small) or probs
@@ -407,8 +823,13 @@ def _one(ctx: Ctx, prog: list, sample: bool) -> None:
 def run(ctx: Ctx) -> None:
     ctx.rule = ("(1) directed corpus: read-mutate-read for every mutating method (bs, ps, loss, mode_swaps, barrier, "
                 "add of a unitary / of a building block, herald, edit of a block after placement; loss-bearing calls, "
-                "swaps and unitary blocks on a circuit that already has an ancilla mode) and tiled building "
-                "blocks holding grouped unitary blocks (depth 1 and 2); (2) random construction programs on one "
+                "swaps and unitary blocks on a circuit that already has an ancilla mode), tiled building "
+                "blocks holding grouped unitary blocks (depth 1 and 2), and circuits with tiny-amplitude components "
+                "(reflectivity / loss 1e-6..1e-21 and 1-1e-6, 1-1e-9, phases next to 0, pi/2, pi, unitary blocks with "
+                "such entries) whose life is crossed by a change of a global setting (unitary_precision 1e-12..1e-2, "
+                "sampler_probability_threshold) before the build, after it, in the middle, between two reads, set and "
+                "restored before the read; (2) random construction programs (40% of them with tiny-amplitude "
+                "components and / or 1-3 changes of a global setting at random points) on one "
                 "circuit (1-8 modes, 0-40 calls, all component kinds, both conventions, unitary blocks via "
                 "add(Unitary), building blocks placed repeatedly, ~15% invalid calls) with U/U_full of every live "
                 "object read after every call / sparsely / at the end only; non-trivial = at least 3 "
@@ -423,6 +844,13 @@ def run(ctx: Ctx) -> None:
         for depth2 in (False, True):
             ctx.count("corpus:tiles-depth" + ("2" if depth2 else "1"))
             _one(ctx, directed_tiles(rng, depth2), sample=False)
+        for si, shape in enumerate(SETTING_SHAPES):
+            if ctx.out_of_time():
+                break
+            vals = PRECISIONS if shape != "sampler-threshold" else THRESHOLDS
+            for j in (0, 2) if shape != "default-only" else (0,):
+                ctx.count("corpus:settings:" + shape)
+                _one(ctx, directed_settings(rng, shape, vals[(2 * rep + si + j) % len(vals)]), sample=False)
     N = ctx.n(250, 3000)
     for i in range(N):
         if ctx.out_of_time():
